@@ -99,6 +99,18 @@ def present(f, spcnames):
             out['data'].append([])
         else:
             out['data'].append([int(x) for x in a])
+    # grid header as the reader presents it (self-describing formats)
+    out['hdr'] = {}
+    for k, a in (('xorg', 'XORIG'), ('yorg', 'YORIG'), ('delx', 'XCELL'),
+                 ('dely', 'YCELL'), ('plon', 'PLON'), ('plat', 'PLAT'),
+                 ('tlat1', 'TLAT1'), ('tlat2', 'TLAT2'), ('iutm', 'IUTM'),
+                 ('istag', 'ISTAG'), ('iproj', 'CPROJ'), ('itzon', 'ITZON')):
+        try:
+            x = float(np.asarray(getattr(f, a)).ravel()[0])
+            out['hdr'][k] = int(x) if x == int(x) and abs(x) < 2e9 \
+                else -99998
+        except Exception:
+            out['hdr'][k] = -99999
     for key in ('TFLAG', 'ETFLAG'):
         if key in f.variables:
             tf = np.asarray(f.variables[key][...])
@@ -306,12 +318,12 @@ def case_encode_read(arg):
                 r['res'] = 'hang'
                 r['exc'] = 'did not terminate within 10 s'
                 r['got'] = {'dims': {}, 'names': [], 'data': [],
-                            'dataok': False, 'tflag': [], 'etflag': []}
+                            'dataok': False, 'tflag': [], 'etflag': [], 'hdr': {}}
             except Exception as ex:
                 r['res'] = 'raised'
                 r['exc'] = '%s: %s' % (type(ex).__name__, str(ex)[:80])
                 r['got'] = {'dims': {}, 'names': [], 'data': [],
-                            'dataok': False, 'tflag': [], 'etflag': []}
+                            'dataok': False, 'tflag': [], 'etflag': [], 'hdr': {}}
             finally:
                 try:
                     signal.setitimer(signal.ITIMER_REAL, 0)
